@@ -80,7 +80,7 @@ def configs(tier):
                     # the triangle is the smallest graph on which the order of a neighbour loop can change a candidate list
                     out.append(dict(c, graph='K3', tags=c['tags'] + ['K3']))
     for c in C03.configs(tier):
-        if c['graph'] in ('P3', 'K3') and c['mode'] == 'plain' and c['spec'] in ('SIS', 'compete') and c['ic'][0] != 'S':
+        if c['graph'] in ('P3', 'K3', 'D:3:02,12,20') and c['mode'] == 'plain' and c['spec'] in ('SIS', 'compete') and c['ic'][0] != 'S' and not c.get('minimal_spec') and not c.get('return_order'):
             out.append(dict(c, family='order-simple', tags=['order-simple'] + c['tags']))
     return out
 
